@@ -85,6 +85,7 @@ class TU:
                 self._record(o)
         self.SIZES = {}
         self.OFFS = {}
+        self.log_errors = False
         self._sizes()
 
     def _enum(self, o):
@@ -244,8 +245,9 @@ class TU:
             callees_ = self.callees(c, acc)
         return acc
 
-    def translate(self, names, mem=False, explicit_in=(), namespace='Gen', imports=('MiVerif.Gen.Prelude',), strict=True, header=''):
+    def translate(self, names, mem=False, explicit_in=(), namespace='Gen', imports=('MiVerif.Gen.Prelude',), strict=True, header='', log_errors=False):
         names = list(names)
+        self.log_errors = log_errors
         missing = [n for n in names if n not in self.FNS]
         if missing:
             raise TranslateError('functions not found in the translation unit: ' + ', '.join(missing))
@@ -310,12 +312,22 @@ class Fn:
         self.abs = {}
         self.eff = False
         self._join = []
+        self.local_arrays = {}
+        self.find_local_arrays(f)
         self.find_outs(f)
         if not mem:
             self.find_abs(f)
         self.find_eff(f)
 
     # ---- analysis passes
+    def find_local_arrays(self, n):
+        if n.get('kind') == 'VarDecl' and 'type' in n:
+            m = re.match(r'^(.*)\[(\d+)\]$', self.tu.clean(dq(n)))
+            if m:
+                self.local_arrays[n['name']] = (m.group(1).strip(), int(m.group(2)))
+        for c in n.get('inner', []):
+            self.find_local_arrays(c)
+
     def find_outs(self, n):
         if n.get('kind') in ('BinaryOperator', 'CompoundAssignOperator') and (n.get('opcode') == '=' or n['kind'] == 'CompoundAssignOperator'):
             l = n['inner'][0]
@@ -340,7 +352,7 @@ class Fn:
             for c in n.get('inner', []):
                 if c.get('kind') == 'CallExpr':
                     fn = strip(c['inner'][0]).get('referencedDecl', {}).get('name', '')
-                    if fn.startswith('_mi_assert') or fn in IGNORED_CALLS:
+                    if self.ignored(fn):
                         continue
                     if fn in self.translated:
                         continue
@@ -355,6 +367,13 @@ class Fn:
         for c in n.get('inner', []):
             self.find_abs(c)
 
+    def ignored(self, fn):
+        if fn.startswith('_mi_assert'):
+            return True
+        if fn == '_mi_error_message' and self.tu.log_errors:
+            return False
+        return fn in IGNORED_CALLS
+
     def callee_name(self, c):
         return strip(c['inner'][0]).get('referencedDecl', {}).get('name', '')
 
@@ -362,7 +381,7 @@ class Fn:
         if c.get('kind') != 'CallExpr':
             return False
         fn = self.callee_name(c)
-        if fn.startswith('_mi_assert') or fn in IGNORED_CALLS or fn.startswith('__builtin'):
+        if self.ignored(fn) or fn.startswith('__builtin'):
             return False
         if fn in self.translated:
             return False
@@ -389,6 +408,11 @@ class Fn:
         while l['kind'] == 'ParenExpr':
             l = l['inner'][0]
         if l['kind'] == 'ArraySubscriptExpr':
+            b = strip(l['inner'][0])
+            if b['kind'] == 'DeclRefExpr' and b['referencedDecl']['name'] in self.local_arrays:
+                return False
+            return True
+        if l['kind'] == 'MemberExpr' and not self.mem and arrow_split(l):
             return True
         if l['kind'] == 'UnaryOperator' and l['opcode'] == '*':
             b = strip(l['inner'][0])
@@ -484,6 +508,8 @@ class Fn:
                     return f'(({self.expr(b)} + {off}) % {2**64})'
                 if i['kind'] == 'StringLiteral':
                     return '0'
+                if i['kind'] == 'DeclRefExpr' and i['referencedDecl']['name'] in self.local_arrays:
+                    return '1'      # address of a local array: only its elements (scalars) are used
                 raise TranslateError('array decay of ' + i['kind'])
             if ck == 'IntegralCast':
                 return self.cast(self.expr(inner), tu.bits(dq(inner)), tu.bits(dq(n)))
@@ -528,6 +554,12 @@ class Fn:
                 return f'({nm} {self.expr(b)})'
             p = self.member_path(n)
             return self.addx(p, self.lty(dq(n)), ('field', r, p[len(r):]))
+        if k == 'ArraySubscriptExpr' and strip(n['inner'][0])['kind'] == 'DeclRefExpr' and strip(n['inner'][0])['referencedDecl']['name'] in self.local_arrays:
+            try:
+                iv = tu.ceval(n['inner'][1])
+            except Exception:
+                raise TranslateError('non-constant index into local array')
+            return f'{strip(n["inner"][0])["referencedDecl"]["name"]}_{iv}'
         if k == 'ArraySubscriptExpr':
             b, i = n['inner']
             bb = strip(b)
@@ -558,7 +590,7 @@ class Fn:
                 self.addx(nm, 'Nat → ' + self.lty(dq(n)), ('ext', nm))
                 return f'({nm} {self.expr(n["inner"][0])})'
             if op == '&':
-                raise TranslateError('address-of outside call')
+                return self.addr_of(n['inner'][0])
             if op in ('--', '++'):
                 tgt = n['inner'][0]
                 while tgt['kind'] == 'ParenExpr':
@@ -663,6 +695,31 @@ class Fn:
             return '0'
         raise TranslateError('expr ' + k)
 
+    def addr_of(self, l):
+        tu = self.tu
+        while l['kind'] == 'ParenExpr':
+            l = l['inner'][0]
+        if l['kind'] == 'ArraySubscriptExpr':
+            b, i = l['inner']
+            bt = tu.clean(dq(b))
+            sz = tu.pointee_size(bt) if bt.endswith('*') else None
+            if sz is None:
+                raise TranslateError('address-of subscript base')
+            ie = self.expr(i)
+            if tu.bits(dq(i))[0] == 's':
+                ie = f'(Int.toNat (({ie}) % {2**64}))'
+            return f'(({self.expr(b)} + {ie} * {sz}) % {2**64})'
+        if l['kind'] == 'MemberExpr' and l.get('isArrow'):
+            b = l['inner'][0]
+            bt = tu.tag(tu.clean(dq(b)).rstrip('*').strip())
+            off = tu.OFFS.get((bt, l['name']))
+            if off is None:
+                raise TranslateError(f'offsetof {bt}.{l["name"]}')
+            return f'(({self.expr(b)} + {off}) % {2**64})'
+        if l['kind'] == 'UnaryOperator' and l['opcode'] == '*':
+            return self.expr(l['inner'][0])
+        raise TranslateError('address-of ' + l['kind'])
+
     def flush(self):
         p = ''.join(self.pre)
         self.pre = []
@@ -719,6 +776,9 @@ class Fn:
                 else:
                     kind, pn, suffix = origin
                     a = strip(argn[sig['pnames'].index(pn)])
+                    if a['kind'] == 'DeclRefExpr' and a['referencedDecl']['name'] in self.local_arrays:
+                        xs.append(a['referencedDecl']['name'] + suffix)
+                        continue
                     ok = a['kind'] in ('DeclRefExpr', 'MemberExpr')
                     if ok:
                         try:
@@ -811,6 +871,14 @@ class Fn:
     def assign_target(self, l):
         while l['kind'] == 'ParenExpr':
             l = l['inner'][0]
+        if l['kind'] == 'ArraySubscriptExpr':
+            b = strip(l['inner'][0])
+            if b['kind'] == 'DeclRefExpr' and b['referencedDecl']['name'] in self.local_arrays:
+                try:
+                    iv = self.tu.ceval(l['inner'][1])
+                except Exception:
+                    raise TranslateError('non-constant index into local array')
+                return f'{b["referencedDecl"]["name"]}_{iv}'
         if l['kind'] == 'DeclRefExpr':
             if l['referencedDecl']['name'] not in self.locals and l['referencedDecl']['name'] not in self.pnames:
                 raise TranslateError('assignment to global ' + l['referencedDecl']['name'])
@@ -834,6 +902,11 @@ class Fn:
         while l['kind'] == 'ParenExpr':
             l = l['inner'][0]
         val = self.expr(s['inner'][1])
+        if tu.bits(dq(s))[0] == 's' and l['kind'] != 'UnaryOperator':
+            val = f'(Int.toNat (({val}) % {2**64}))'
+        if l['kind'] == 'MemberExpr':
+            b, fld = arrow_split(l)
+            return f'let eff_out := eff_out ++ [("set:{fld}", [{self.expr(b)}, {val}])]\n'
         if l['kind'] == 'ArraySubscriptExpr':
             b, i = l['inner']
             sz = tu.pointee_size(tu.clean(dq(b)))
@@ -874,6 +947,13 @@ class Fn:
                 if v.get('kind') != 'VarDecl':
                     continue
                 self.locals.add(v['name'])
+                if v['name'] in self.local_arrays:
+                    if 'inner' in v and v['inner']:
+                        raise TranslateError('initialised local array')
+                    for i in range(self.local_arrays[v['name']][1]):
+                        out += f'let {v["name"]}_{i} := 0\n'
+                        self.locals.add(f'{v["name"]}_{i}')
+                    continue
                 if 'inner' in v and v['inner'] and v['inner'][-1].get('kind') not in ('InitListExpr',):
                     e = self.expr(v['inner'][-1])
                     out += self.flush() + f'let {v["name"]} := {e}\n'
@@ -1013,8 +1093,10 @@ class Fn:
             return self.stmts(rest)   # asserts, (void)x
         if kd == 'CallExpr':
             fn = self.callee_name(s)
-            if fn.startswith('_mi_assert') or fn in IGNORED_CALLS:
+            if self.ignored(fn):
                 return self.stmts(rest)
+            if fn == '_mi_error_message':
+                return self.flush() + f'let eff_out := eff_out ++ [("_mi_error_message", [{self.expr(s["inner"][1])}])]\n' + self.stmts(rest)
             if fn in self.translated:
                 sig = tu.SIG.get(fn)
                 if sig is None:
